@@ -71,8 +71,104 @@ func checkC16(c *an.Ctx) {
 		}
 		return "", false, false
 	}
+	// second idiom: a constant registry — a package-level map from extension to decoding function,
+	// looked up with the (folded) extension
+	registry := map[string]*ssa.Function{}
+	var regLookup *ssa.Lookup
+	regFolded := false
+	an.EachInstr(um, func(in ssa.Instruction) {
+		lk, ok := in.(*ssa.Lookup)
+		if !ok {
+			return
+		}
+		var g *ssa.Global
+		for _, s := range an.Sources(lk.X) {
+			if u, ok := s.(*ssa.UnOp); ok && u.Op == token.MUL {
+				if gg, ok := u.X.(*ssa.Global); ok {
+					g = gg
+				}
+			}
+		}
+		if g == nil {
+			return
+		}
+		keyFromExt, fold := false, false
+		for _, src := range an.Sources(lk.Index) {
+			if src == ssa.Value(extParam) {
+				keyFromExt = true
+			}
+			if call, okc := src.(*ssa.Call); okc && an.ShortCallee(&call.Call) == "strings.ToLower" && an.SameValue(call.Call.Args[0], extParam) {
+				keyFromExt, fold = true, true
+			}
+		}
+		if !keyFromExt {
+			return
+		}
+		// the literal the global is initialised with
+		if initFn := g.Pkg.Func("init"); initFn != nil {
+			an.EachInstr(initFn, func(in2 ssa.Instruction) {
+				mu, ok := in2.(*ssa.MapUpdate)
+				if !ok {
+					return
+				}
+				mm, ok := mu.Map.(*ssa.MakeMap)
+				if !ok || mm.Referrers() == nil {
+					return
+				}
+				stored := false
+				for _, r := range *mm.Referrers() {
+					if st, ok := r.(*ssa.Store); ok && st.Addr == ssa.Value(g) {
+						stored = true
+					}
+				}
+				k, isK := an.ConstString(mu.Key)
+				if !stored || !isK {
+					return
+				}
+				for _, v := range an.Sources(mu.Value) {
+					switch f := v.(type) {
+					case *ssa.Function:
+						registry[k] = f
+					case *ssa.MakeClosure:
+						registry[k] = f.Fn.(*ssa.Function)
+					case *ssa.ChangeType:
+						if fn, ok := f.X.(*ssa.Function); ok {
+							registry[k] = fn
+						}
+					}
+				}
+			})
+		}
+		// nobody else writes the registry
+		writers := 0
+		for _, fn := range p.Funcs {
+			an.EachInstr(fn, func(in2 ssa.Instruction) {
+				switch y := in2.(type) {
+				case *ssa.Store:
+					if y.Addr == ssa.Value(g) {
+						writers++
+					}
+				case *ssa.MapUpdate:
+					for _, s := range an.Sources(y.Map) {
+						if u, ok := s.(*ssa.UnOp); ok && u.X == ssa.Value(g) {
+							writers++
+						}
+					}
+				}
+			})
+		}
+		if writers == 0 && len(registry) > 0 {
+			regLookup, regFolded = lk, fold
+			c.Anchor("decoder registry", g.Name())
+		} else {
+			registry = map[string]*ssa.Function{}
+		}
+	})
 	folded := true
 	seenCmp := false
+	if regLookup != nil {
+		seenCmp, folded = true, regFolded
+	}
 	an.EachInstr(um, func(in ssa.Instruction) {
 		if v, ok := in.(ssa.Value); ok {
 			if _, f, ok := isExtCmp(v); ok {
@@ -88,10 +184,42 @@ func checkC16(c *an.Ctx) {
 	rows := []string{".yaml", ".yml", ".json", ".toml", ".ini", ""}
 	for _, ext := range rows {
 		ext := ext
-		ex := &an.Explorer{P: p, NoReturn: noReturn}
+		ex := &an.Explorer{P: p, NoReturn: noReturn, MaxDepth: 2}
+		if regLookup != nil {
+			ex.Inline = func(f *ssa.Function) bool { return an.Outer(f).Pkg == um.Pkg && f != um }
+			ex.ResolveCallee = func(cc *ssa.CallCommon, st *an.State) *ssa.Function {
+				for _, s := range an.Sources(cc.Value) {
+					if s == ssa.Value(regLookup) {
+						return registry[ext]
+					}
+					if e, ok := s.(*ssa.Extract); ok && e.Tuple == ssa.Value(regLookup) && e.Index == 0 {
+						return registry[ext]
+					}
+				}
+				return nil
+			}
+		}
 		ex.Atom = func(v ssa.Value) (an.AVal, bool) {
 			if lit, _, ok := isExtCmp(v); ok {
 				return an.ABool(lit == ext), true
+			}
+			if regLookup != nil {
+				_, present := registry[ext]
+				if e, ok := v.(*ssa.Extract); ok && e.Tuple == ssa.Value(regLookup) {
+					if e.Index == 1 {
+						return an.ABool(present), true
+					}
+					if present {
+						return an.AVal{K: an.ANonNil}, true
+					}
+					return an.AVal{K: an.ANil}, true
+				}
+				if v == ssa.Value(regLookup) && !regLookup.CommaOk {
+					if present {
+						return an.AVal{K: an.ANonNil}, true
+					}
+					return an.AVal{K: an.ANil}, true
+				}
 			}
 			return an.AVal{}, false
 		}
@@ -104,7 +232,7 @@ func checkC16(c *an.Ctx) {
 			if strings.HasSuffix(name, ".Decode") || strings.Contains(name, "Unmarshal") {
 				// the decoder and its input
 				into := "?"
-				if a, ok := an.Resolve(call.Call.Args[len(call.Call.Args)-1]).(*ssa.Alloc); ok {
+				if a, ok := an.Resolve(st.Root(call.Call.Args[len(call.Call.Args)-1])).(*ssa.Alloc); ok {
 					into = "&" + a.Comment
 				}
 				input := "?"
@@ -261,7 +389,12 @@ func checkC16(c *an.Ctx) {
 			if f == ru {
 				want = `"",".json",".yaml",path/filepath.Ext`
 			}
-			c.Check(got == want, "C16.1", an.Short(f)+":extension", site.Pos(), "the extension comes from "+want, "the extension handed to unmarshalData comes from {"+got+"}, want {"+want+"}")
+			okSet := got == want
+			if f == ru && !okSet {
+				// the empty fallback need not be a value of its own when the code returns the default directly
+				okSet = got == `".json",".yaml",path/filepath.Ext`
+			}
+			c.Check(okSet, "C16.1", an.Short(f)+":extension", site.Pos(), "the extension comes from "+want, "the extension handed to unmarshalData comes from {"+got+"}, want {"+want+"}")
 		}
 	}
 	if ru != nil {
